@@ -31,6 +31,7 @@ import Chrono.Proofs.Rfc3339UniqueL
 import Chrono.Proofs.Rfc3339SlicesL
 import Chrono.Proofs.Rfc3339DataL
 import Chrono.Proofs.Rfc3339OffsetDataL
+import Chrono.Proofs.Rfc3339ZuluL
 import Chrono.Proofs.Rfc3339ExtraL
 import Chrono.Proofs.Rfc3339RelaxedL
 import Chrono.Extracted.Rfc3339
@@ -334,6 +335,20 @@ src/datetime/mod.rs and separate bodies in Model/Rfc3339.lean (`to_rfc3339` bind
 literal `SecondsFormat::AutoSi, false`); this theorem says the bodies agree on every value. -/
 theorem to_rfc3339_is_opts (z : Zoned) : to_rfc3339 z = to_rfc3339_opts z .autoSi false := rfl
 
+/-- **secform_domain_declared** (audit 2, L2: a precondition that was undeclared).  "The five precision options"
+of the property are the five constructors of the model's `SecondsFormat`, and they are the first five variants
+of the Rust `enum SecondsFormat` as re-extracted on this run.  The Rust enum has a SIXTH, doc-hidden variant
+`__NonExhaustive` that a caller can name; `write_rfc3339` answers it with `unreachable!()`, i.e.
+`to_rfc3339_opts(SecondsFormat::__NonExhaustive, _)` PANICS (src/format/formatting.rs; confirmed on the real
+crate, counted by the harness as `render:__NonExhaustive:documented-panic`).  It is outside the property's
+quantifier and has no constructor in the model, so "rendering never panics" in `writer_in_grammar` and every
+other writer theorem is a statement about the five public options only.  A seventh variant, a renamed or a
+re-ordered one makes this theorem fail. -/
+theorem secform_domain_declared :
+    Extracted.RFC3339_SECFORM_VARIANTS = ["Secs", "Millis", "Micros", "Nanos", "AutoSi", "__NonExhaustive"] ∧
+    (∀ sf : Format.SecondsFormat, sf = .secs ∨ sf = .millis ∨ sf = .micros ∨ sf = .nanos ∨ sf = .autoSi) :=
+  ⟨by decide, fun sf => by cases sf <;> simp⟩
+
 /-- **writer_in_grammar.**  For every well-formed zone-aware value with a whole-minute offset whose wall
 clock lies in the years 0–9999, every one of the five `SecondsFormat` options and both `use_z`
 settings: rendering succeeds (no panic), and the text matches the RFC 3339 grammar with valid fields,
@@ -381,6 +396,21 @@ example :
     to_rfc3339 ⟨⟨dateOfYo 2015 20, ⟨63320, 0⟩⟩, 0⟩ = .ok [50, 48, 49, 53, 45, 48, 49, 45, 50, 48, 84, 49, 55, 58, 51, 53, 58, 50, 48, 43, 48, 48, 58, 48, 48] ∧
     to_rfc3339_opts ⟨⟨dateOfYo 2015 20, ⟨63320, 0⟩⟩, -1800⟩ .secs true = .ok [50, 48, 49, 53, 45, 48, 49, 45, 50, 48, 84, 49, 55, 58, 48, 53, 58, 50, 48, 45, 48, 48, 58, 51, 48] ∧
     offsetOf ⟨2015, 1, 20, 17, 35, 20, [], false, true, 0, 0⟩ = offsetOf ⟨2015, 1, 20, 17, 35, 20, [], false, false, 0, 0⟩ := by
+  decide +kernel
+
+/-- **writer_zulu_is_upper_case** (audit 2, L3).  When `Z` is requested and the offset is zero the text ends in
+the UPPER-CASE `Z` (byte 90), for every one of the five precisions.  `Matches` accepts `z` as well (the
+reader's latitude), so `writer_fields_exact`'s `f.zulu = true` alone left the case open. -/
+theorem writer_zulu_is_upper_case (z : Zoned) (hz : ZInv z) (hy : WallYear0to9999 (wallSecs z)) (h0 : z.off = 0)
+    (sf : Format.SecondsFormat) (t : List Nat) (h : to_rfc3339_opts z sf true = .ok t) :
+    t.getLast? = some 90 :=
+  Proofs.Rfc3339.writer_zulu_upper z hz hy h0 sf t h
+
+/-- non-vacuity: 2015-01-20T17:35:20Z with `Secs`, `use_z` renders `"2015-01-20T17:35:20Z"` (hypotheses of
+`writer_zulu_is_upper_case` met; the last byte is 90, not 122) -/
+example :
+    to_rfc3339_opts ⟨⟨dateOfYo 2015 20, ⟨63320, 0⟩⟩, 0⟩ .secs true =
+      .ok [50, 48, 49, 53, 45, 48, 49, 45, 50, 48, 84, 49, 55, 58, 51, 53, 58, 50, 48, 90] := by
   decide +kernel
 
 /-- **autoSi_shortest.**  What `wantedFrac .autoSi` (a branch-for-branch copy of the code's cascade) means:
